@@ -49,6 +49,7 @@ fn main() {
             let thorough = tier == "thorough";
             let oracle_every = match stream {
                 "twide" => 53,
+                "dwide" => 211,
                 "tlong" => 4099,
                 "trand" if thorough => 7,
                 _ => 1,
@@ -101,6 +102,10 @@ fn main() {
                 "srand" => srand(&mut g, &mut r, if thorough { 3000 } else { 150 }, if thorough { 120 } else { 30 }),
                 "tlong" => tlong(&mut g, shard),
                 "twide" => twide(&mut g, &mut r, if thorough { 12 } else { 2 }, if thorough { 900 } else { 420 }),
+                "tdeep" => tdeep(&mut g, &mut r, if thorough { 600 } else { 40 }),
+                "dwide" => dwide(&mut g, &mut r, if thorough { 12 } else { 1 }, if thorough { 900 } else { 300 }),
+                "tkeylen" => tkeylen(&mut g, &mut r, if thorough { 6000 } else { 400 }),
+                "dnear" => dnear(&mut g, &mut r, if thorough { 1 << 21 } else { 1 << 18 }),
                 "tmid" => tmid(&mut g, &mut r, if thorough { 40000 } else { 2500 }),
                 "dsmall" => {
                     exhaustive = true;
